@@ -29,9 +29,9 @@ INFO = {
     "trusted": [],
 }
 
-MASKS = {36: [0x38, 0x2b], 24: [0x1f8, 0x0bd], 25: [0x1f8, 0x16b], 31: [0x38, 0x1e, 0x2b, 0x07], 35: [0x38, 0x2b], 32: [0x11, 0x3c, 0x1b], 34: [0x11, 0x12, 0x3c, 0x2e], 33: [0x1c, 0x0b], 21: [0x1c, 0x19, 0x0b], 22: [0x1c, 0x16], 23: [0x0e, 0x0b]}
+MASKS = {36: [0x78, 0x35], 37: [0x78, 0x4b], 24: [0x1f8, 0x0bd], 25: [0x1f8, 0x16b], 31: [0x38, 0x1e, 0x2b, 0x07], 35: [0x38, 0x2b], 32: [0x11, 0x3c, 0x1b], 34: [0x11, 0x12, 0x3c, 0x2e], 33: [0x1c, 0x0b], 21: [0x1c, 0x19, 0x0b], 22: [0x1c, 0x16], 23: [0x0e, 0x0b]}
 # (A, B): other codec; same codec other parameters; same (k, n-k) other field; same LDPC (k, n-k, N1) other seed / other symbol length; identical parameters
-PAIRS_Q = [(31, 21), (21, 31), (22, 21), (21, 22), (34, 32), (31, 35), (32, 33), (36, 31), (25, 24)]
+PAIRS_Q = [(31, 21), (21, 31), (22, 21), (21, 22), (34, 32), (31, 35), (32, 33), (36, 31), (36, 37), (25, 24)]
 PAIRS_T = PAIRS_Q + [(31, 31), (21, 21), (32, 34), (35, 31), (23, 21), (21, 23), (33, 32), (31, 32), (22, 31)]
 
 
